@@ -169,6 +169,12 @@ def gen_plan(rng, tier, i, seed):
         cli_names = ["debug", "report", "is_simple", "output_file", "gene_db", "profile_name", "sam_path",
                      "cn_region", "solver", "genome", "reference", "multiple_warn_level"]
         extra = ["unknown", cli_names[(i // (2 * len(ROUTES))) % len(cli_names)], "x"]
+    force_cn = False
+    if route in ("options", "options_explicit") and (i // len(ROUTES)) % 3 == 2:
+        # an unknown name that is a field of the profile object, together with a user-supplied structure (the
+        # profile is then built by the run itself, not by Profile.load)
+        extra = ["unknown", ["name", "data", "name"][(i // (3 * len(ROUTES))) % 3], "1"]
+        force_cn = True
     if extra:
         # the extra entry must be the only one of its name (a dict cannot hold the name twice)
         settings = [x for x in settings if x[0] != extra[1]]
@@ -178,7 +184,7 @@ def gen_plan(rng, tier, i, seed):
     return {"w": gen_world(seed, i % cfg["worlds"], exome=(route == "exome")), "route": route,
             "settings": settings, "options": options, "prior": prior, "empty_options": empty_options,
             # the gene structure is supplied by the user as well (--cn): the profile file's options must count all the same
-            "with_cn": route in ("options", "options_explicit", "exome") and rng.random() < 0.3,
+            "with_cn": (route in ("options", "options_explicit", "exome") and rng.random() < 0.3) or force_cn,
             "exome_name": rng.choice(["exome", "wxs", "wes"]), "exome_cli": rng.random() < 0.5,
             "extra_pos": rng.choice(["first", "first", "middle", "last"]),
             "extra": extra, "dashes": rng.random() < (0.6 if route in ("cli", "profile_cli", "dump") else 0.3),
